@@ -271,6 +271,26 @@ def run(tier: str) -> int:
             payloads.append(("layout", k, TOKENS[i:i + 4]))
     for i in range(0, len(EXTRA_TEXTS), 40):
         payloads.append(("texts", EXTRA_TEXTS[i:i + 40], "hand-picked"))
+    # every PEEK slice over a set of bound spellings (incl. zero, leading zeros, negative zero)
+    bounds = ["", "0", "1", "-1", "00", "01", "-0", "-01", "2", "+1"]
+    payloads.append(("texts", [f"r = {{ PEEK[{a}..{b}] }}" for a in bounds for b in bounds], "slices"))
+    # every repetition bound spelling
+    nums = ["", "0", "1", "2", "00", "02", "-1", "+1", "1_0"]
+    payloads.append(("texts", [f"r = {{ a{{{x}}} }}" for x in nums] + [f"r = {{ a{{{x},{y}}} }}" for x in nums for y in nums], "repeat-bounds"))
+    # every escape body over a small character set (hex digits of both cases, non-hex letters, signs, blanks, separators)
+    E = "09afAFgG_+- x{}"
+    bodies = [""] + ["".join(t) for k in (1, 2, 3) for t in itertools.product(E, repeat=k)]
+    esc = []
+    for b_ in bodies:
+        esc.append('r = { "\\x' + b_ + '" }')
+        esc.append('r = { "\\u{' + b_ + '}" }')
+        if len(b_) <= 2:
+            esc.append("r = { '\\x" + b_ + "'..'z' }")
+            esc.append("r = { '\\u{" + b_ + "}'..'z' }")
+            esc.append('r = { ^"\\u{' + b_ + '}" }')
+            esc.append('r = { PUSH_LITERAL("\\x' + b_ + '") }')
+    for i in range(0, len(esc), 700):
+        payloads.append(("texts", esc[i:i + 700], "escape-bodies"))
     files = sorted(glob.glob(os.path.join(common.REPO, "tests", "grammars", "*.pest")) + glob.glob(os.path.join(common.REPO, "examples", "*", "*.pest")))
     for f in files:
         payloads.append(("texts", [open(f, encoding="utf-8").read()], f"bundled({os.path.relpath(f, common.REPO)})"))
@@ -315,7 +335,7 @@ def run(tier: str) -> int:
         "rule": f"(a) every rule body r = {{ t1 ... tk }} over a {len(TOKENS)}-token alphabet (identifiers, every stack keyword, a keyword-prefixed identifier, string/insensitive/char literals, '..', all brackets, numbers, all operators, one- and two-letter tags) joined by single spaces, k <= K; "
                 f"(b) every rule header / top-level token sequence over {len(HEADER_TOKENS)} tokens (names, '=', the four modifiers, braces, ///, //! docs), k <= H; "
                 "(c) layout: for every accepted body with k <= layout_k tokens, each inter-token gap in turn - and all gaps at once - set to '', newline, a block comment, a line comment; "
-                "(d) ~250 hand-picked texts (escape forms, repetition bounds, PEEK slices, tags, keyword prefixes, prefix/postfix chains, docs, comments, line endings); (e) the bundled .pest files. "
+                "(d) every PEEK slice and every repetition bound over ten spellings of the bounds (zero, leading zeros, negative zero, signs), every \\x / \\u{} escape body of up to three characters over a 15-character set in string, insensitive-string, character and PUSH_LITERAL literals, and ~250 hand-picked texts (escape forms, repetition bounds, PEEK slices, tags, keyword prefixes, prefix/postfix chains, docs, comments, line endings); (e) the bundled .pest files. "
                 "Oracle: from_grammar(text, optimizer=None) returns a Parser iff the meta-grammar, executed by the reference model, accepts the text; if both accept, rule names, modifiers, rule and grammar docs and the expression structure "
                 "(modulo ~/| associativity, Group nodes and tag position inside a term) equal the structure read off the meta-grammar's parse tree. states = texts judged; a text is non-trivial when the meta-grammar accepts it",
         "samples": [{"text": t} for t in common.pick_samples(EXTRA_TEXTS, 5)],
